@@ -20,7 +20,7 @@ RULE = ('paired runs of the real martinize2 command line (separate processes, so
         '(plain, elastic network, backbone position restraints, given secondary structure, cysteine auto, neutral termini); '
         'presentations: atoms permuted within every residue (3 permutations), hydrogens renamed (arbitrary unique H names, '
         'reversed), rigid motions that map the 0.001 A coordinate grid onto itself (the 24 proper rotations of the cube '
-        'combined with grid translations, so that the motion is exact in the file), hash seeds 1-3, and combinations; '
+        'combined with grid translations, so that the motion is exact in the file), hash seeds 1-3 (1-5 with requested terminus modifications), and combinations; '
         'thorough adds general rational rotations with a parameter tolerance. Compared: every section of every written '
         'ITP token by token (atoms, types, charges, all interactions and parameters; numeric tokens within 1e-9 relative, '
         'since the order of floating-point sums changes with the presentation) and the coarse-grained coordinates '
@@ -85,6 +85,12 @@ def generate(rng, tier):
                 pres.append({'perm': rng.randrange(1, 10 ** 6), 'hseed': rng.randint(1, 3), 'rename': rng.randrange(1, 10 ** 6), 'rot': rng.randrange(1, 24),
                              'trans': [rng.randint(-20000, 20000) for _ in range(3)]})
             pres.append({'perm': 0, 'hseed': 0, 'rename': -1, 'rot': 0, 'trans': [0, 0, 0]})       # hydrogens renamed in reverse order
+            if opt == 'nt':
+                # requested terminus modifications add several atoms: every hash seed from 1 to 5 on the unchanged presentation
+                have = {p['hseed'] for p in pres if not (p['perm'] or p['rename'] or p['rot'])}
+                for hs in (1, 2, 3, 4, 5):
+                    if hs not in have:
+                        pres.append({'perm': 0, 'hseed': hs, 'rename': 0, 'rot': 0, 'trans': [0, 0, 0]})
             for p in pres:
                 cases.append({'input': name, 'opt': opt, 'pres': p})
     return cases
